@@ -277,9 +277,9 @@ func runC05(s *kernel.Sim) {
 		}.YAML()
 		mutations = append(mutations, "data-sanitation-flow")
 	}
-	quotaW := []int{5, 2, 1, 1, 1, 2}
+	quotaW := []int{5, 2, 1, 1, 1, 2, 2}
 	if plausible {
-		quotaW = []int{3, 1, 0, 0, 0, 1}
+		quotaW = []int{3, 1, 0, 0, 0, 1, 1}
 	}
 	switch tp.Weighted(quotaW) {
 	case 1:
@@ -309,6 +309,16 @@ func runC05(s *kernel.Sim) {
 		}
 		files["quotas/q.yaml"] = q
 		mutations = append(mutations, "internal-limit-hierarchy:"+firstWords(strings.ReplaceAll(q, "\n", " "), 400))
+	case 6: // an expression filter on the quota, internal limits with filter blocks of their own
+		expr := []string{"$.request.headers.x-h", "$.request.headers.x-f0-p1", "$.response.status", "$.request.method"}[tp.Choose(4)]
+		q := "quotas:\n  - id: cq\n    filter:\n      url: a.com/*\n      expressions:\n        - \"" + expr + "\"\n    strategy:\n      fixed_window:\n        max: 1000\n        interval: 1\n        interval_unit: minute\ninternal_limits:\n"
+		for i := tp.Range(1, 2); i > 0; i-- {
+			own := []string{"      url: a.com/c\n      method: [GET]\n", "      url: a.com/c\n", "      url: a.com/c/*\n      headers:\n        - key: x-h\n          value: v1\n",
+				"      url: a.com/c\n      expressions:\n        - \"$.request.headers.x-f0-p2\"\n"}[tp.Choose(4)]
+			q += fmt.Sprintf("  - id: l%d\n    parent_id: cq\n    filter:\n%s    strategy:\n      fixed_window:\n        max: 100\n        interval: 1\n        interval_unit: minute\n", i, own)
+		}
+		files["quotas/q.yaml"] = q
+		mutations = append(mutations, "expression-filter-quota:"+firstWords(strings.ReplaceAll(q, "\n", " "), 300))
 	case 4: // two hosts in two files
 		files["quotas/q.yaml"] = strings.ReplaceAll(c08Quota, "a.com/p1", "a.com/c")
 		files["quotas/q2.yaml"] = strings.ReplaceAll(strings.ReplaceAll(c08Quota, "cq", "cq2"), "a.com/p1", "a.com/d")
